@@ -65,9 +65,11 @@ CHECKS = {
         "reader gets nothing, the old entry or the complete new one; other keys are untouched), file_steps_link_* (these step lists are the ones C16's crash replay validates against the code), file_shared_tmp_truncates "
         "(refutation when two writers share a temporary = seeded change C12-1). The same for StoreCache on a FileStore (ConcFileT.lean, directory-tree model): tree_writers_serializable / tree_writers_progress_harmless / "
         "tree_writer_and_progress (ANY initial tree, any path, every interleaving and prefix: old entry, miss, or the complete new one; every other path reads as before), "
-        "tree_steps_link_run (link to C16's replay-validated lists, no hypothesis), tree_shared_tmp_truncates. Partial: the file-step theorems have an atomic reader "
-        "(a reader pre-empted between its metadata read and its data read), more than one progress writer and a concurrent remover are explored by the file-operation "
-        "schedules only."),
+        "tree_steps_link_run (link to C16's replay-validated lists, no hypothesis), tree_shared_tmp_truncates. SPLIT READER (ConcFileSplit.lean): file_split_reader / tree_split_reader - a reader that reads the metadata file after n1 and the data file after n2 >= n1 "
+        "file operations of the same interleaving gets nothing, the complete new entry, the old entry, or the OLD ready metadata with the new bytes; "
+        "file_split_reader_sound / tree_split_reader_sound: under one-key-one-value (C05's Sound), completeness of the old entry (C16) and type agreement it gets nothing, "
+        "the old or the complete new entry; *_mixed_witness / *_incomplete_witness show each hypothesis is needed; tree_split_guard_only_misses (the existence test only adds "
+        "misses). Partial: more than one progress writer and a concurrent remover are explored by the file-operation schedules only."),
   note=("Trusted: Lean kernel; the evaluator model (as C01/C04) and its mechanical oracle-world translation EvalO.lean (harness/gen_evalo.py --check on every run); Conc.lean's atomicity: one cache operation is one step, "
         "Python threads are sequentially consistent at that granularity; the harness scheduler (semaphores, one runnable thread at a time); hypotheses Closed/CanonOK as in C04 (C02 round trip); known finding "
         "rtq-ambiguous-text (shared with C04); the defect found by this check (a metadata-only 'ready' record under the result key) is fixed in /repo (cb22d87)."),
@@ -165,8 +167,10 @@ CHECKS = {
         "C13's refinement theorems) with a lawful state codec returns, for every query and every history of evaluations, the outcome and the call log of the "
         "evaluator over the abstract cache, hence the reference observation; instantiated for the MemoryCache, FileCache (any lawful codec, injective digest), "
         "SQLCache and CacheProxy models (transparent_via_memory / _file / _sql / _proxy); never_stores_error (no store of an error state in any trace). "
-        "Correspondence: histories of evaluations / input values / extra parameters / removals / cleans on 16 cache configurations vs the evaluator model (12 "
-        "of them modelled: keep-data, replace-record and NoCache variants); oracle: every evaluation repeated with no cache in a fresh context."),
+        "Correspondence: histories of evaluations / input values / extra parameters / removals / cleans on 17 cache configurations vs the evaluator model (12 "
+        "of them modelled: keep-data, replace-record and NoCache variants); oracle: every evaluation repeated with no cache in a fresh context; two oracle-only families: "
+        "in-place mutators on dictionaries (nested containers) and a store-backed cache living in the store the resources are read from (clean / remove must not touch "
+        "store keys outside the cache directory)."),
   note='Trusted: Lean kernel; the hand-written evaluator model LiquerModel/Eval.lean + Vocab.lean + Value.lean and the reference interpretation Ref.lean (tied to Context.evaluate/evaluate_action/evaluate_parameter/apply, parse_argv and the argument parsers by differential correspondence over generated queries and histories, not proved about Python); command signatures regenerated from the live registry; vocabulary semantics written twice; the cache seen by the evaluator is the KV specification at evaluator states or (EvalVia.lean) any back-end model simulating it through a state codec (back-ends tied to the code by C13; the codec law decode(encode s) = s-as-ready is a hypothesis discharged for the model codec codecT and validated for the real state types by C11); oracle harness/oracle_ref.py.',
  ),
  "C05": dict(
@@ -195,8 +199,8 @@ CHECKS = {
         "codec law: plain, XOR, Fernet), SQL, combinators, conditional wrappers, proxy; store-backed cache AS CONSTRUCTED (storec_refines: all eight operations "
         "incl. keys() and clean(), flat and nested scheme, ANY cache path - the constructor drops leading slashes, fixes b0a69e7 / 39a373f found by this proof; "
         "storec_unnormalised_false shows the statement fails if the path is kept as given) under PathsOK (paths distinct and not directories of one another; "
-        "the nested scheme violates it on confusable keys = known finding D19, storec_nested_confusion); xor_involutive and xor_hides. Correspondence: 21 "
-        "configurations (StoreCache at cache, /cache, //cache on memory and file stores) x histories over confusable keys and values of every built-in type "
+        "the nested scheme violates it on confusable keys = known finding D19, storec_nested_confusion); xor_involutive and xor_hides. Correspondence: 22 "
+        "configurations (StoreCache at cache, /cache, //cache on memory and file stores; a conditional member in front of an unconditional one) x histories over confusable keys and values of every built-in type "
         "vs the model of each configuration; oracle: Python dict reference + scan of raw files of obfuscating caches."),
   note=("Trusted: Lean kernel; LiquerModel/Cache*.lean mirrors (as fixed by D2, D8, D9, D9b, D17, D18 commits and b0a69e7 / 39a373f); md5 as an injective function; "
         "Fernet as a codec law; sqlite as a list of rows; state-type codecs as parameters."),
